@@ -165,6 +165,49 @@ theorem kinetics_eq_rate_graph (sys : PySys) (nodes : List PyNode) (edges : List
     q.si = rate (physOfPy sys (fun k => graphFaces (edgesSI edges) k)) (stOf sys.space.size x) s i :=
   kinetics_value_graph sys nodes edges hsp s i x q h hperm
 
+/-- the state of the engine model that corresponds to the species-major array of the Python side -/
+def stateOf (n : Nat) (x : PyState) : State := ⟨stOf n x⟩
+
+/-- **agreement on grids**: for a free entry of any valid grid, the value returned by the Python kinetics function, the rate
+law, and the derivative computed by the Euler engine on the marshalled system coincide (exact arithmetic) -/
+theorem kinetics_euler_agree_grid (sys : PySys) (g : GridShape) (vol : Q) (edge : Rat) (env : List Nat)
+    (hsp : sys.space = .grid g vol edge env) (hv : g.valid = true) (hV : vol.si = edge ^ 3) (he : edge ≠ 0)
+    (nEnv : Nat) (chem : Nat → Nat → Bool) (s i : Nat) (hi : i < g.size) (hc : chem i s = false)
+    (x : PyState) (q : Q) (h : pyDspeciesdt sys s i x false = .ok q) :
+    q.si = rate (physOfPy sys (fun k => gridFaces g.w g.h g.d g.px g.py g.pz edge k)) (stOf sys.space.size x) s i ∧
+    eulerDxdt (engOfPhysGrid (physOfPy sys (fun k => gridFaces g.w g.h g.d g.px g.py g.pz edge k)) nEnv g edge chem)
+        (stateOf sys.space.size x) i s = q.si := by
+  have h1 := kinetics_eq_rate_grid sys g vol edge env hsp hv hV s i hi x q h
+  refine ⟨h1, ?_⟩
+  rw [h1]
+  have hvol : ∀ j, (physOfPy sys (fun k => gridFaces g.w g.h g.d g.px g.py g.pz edge k)).vol j = edge ^ 3 := fun j => by
+    show (sys.space.volOf j).si = _
+    rw [hsp]; exact hV
+  have hedge : ∀ j, (physOfPy sys (fun k => gridFaces g.w g.h g.d g.px g.py g.pz edge k)).edge j = edge := fun j => by
+    show sys.space.edgeOf j = _
+    rw [hsp]; rfl
+  exact euler_dxdt_eq_rate_grid_all _ nEnv g edge chem (stateOf sys.space.size x) i s hv hi he hvol hedge rfl hc
+
+/-- **agreement on graphs** (no parallel edges / self-loops for the Python side: `hperm`) -/
+theorem kinetics_euler_agree_graph (sys : PySys) (nodes : List PyNode) (edges : List PyEdge) (hsp : sys.space = .graph nodes edges)
+    (nEnv : Nat) (chem : Nat → Nat → Bool) (s i : Nat) (hc : chem i s = false) (hVi : (sys.space.volOf i).si ≠ 0)
+    (x : PyState) (q : Q) (h : pyDspeciesdt sys s i x false = .ok q)
+    (hperm : (pyFaces nodes.length edges i).Perm (graphFaces (edgesSI edges) i)) :
+    q.si = rate (physOfPy sys (fun k => graphFaces (edgesSI edges) k)) (stOf sys.space.size x) s i ∧
+    eulerDxdt (engOfPhysGraph (physOfPy sys (fun k => graphFaces (edgesSI edges) k)) nEnv
+        (edges.map fun e => ⟨e.i, e.j, e.sfc.si, e.dst.si⟩) chem) (stateOf sys.space.size x) i s = q.si := by
+  have h1 := kinetics_eq_rate_graph sys nodes edges hsp s i x q h hperm
+  refine ⟨h1, ?_⟩
+  rw [h1]
+  have hf : (physOfPy sys (fun k => graphFaces (edgesSI edges) k)).faces i
+      = (graphSlots (edges.map fun e => (⟨e.i, e.j, e.sfc.si, e.dst.si⟩ : GEdge)) i).map faceOfSlot := by
+    have := graph_faces_are_slots (edges.map fun e => (⟨e.i, e.j, e.sfc.si, e.dst.si⟩ : GEdge)) i
+    simp only [List.map_map] at this
+    show graphFaces (edgesSI edges) i = _
+    rw [← this]
+    rfl
+  exact euler_dxdt_eq_rate_graph _ nEnv _ chem (stateOf sys.space.size x) i s hVi hf hc
+
 /-! ## Marshalling -/
 
 /-- the subscripts written by `build_*_matrix` are the ones the engine reads -/
